@@ -102,7 +102,10 @@ class ShuffleBase(Expr):
             projection = determine_column_projection(self, parent, dependents)
 
             partitioning_index = self.partitioning_index
-            if isinstance(partitioning_index, (str, int)):
+            if "index_shuffle" in self._parameters and self.index_shuffle:
+                # shuffling on the index: no column is needed for partitioning
+                partitioning_index = []
+            elif isinstance(partitioning_index, (str, int)):
                 partitioning_index = [partitioning_index]
 
             target = self.frame
